@@ -5,9 +5,20 @@ NOT_REFS = "!(lhs.data is Refs) && !(rhs.data is Refs)"
 UNITS = [
     Unit(name="Comparison::vals", file="src/parser/model.rs", impl="impl Comparison", fn="vals", order=40, serves=["C04"],
          ensures=[("def", "*r.0 == cmp_lhs(*self) && *r.1 == cmp_rhs(*self)")]),
-    Unit(name="eq_ref_to_array", file=F, fn="eq_ref_to_array", order=40, status="assumed", serves=["C04"], ret_name="res",
-         why_assumed="only reached from `eq` for a non-singular right operand, which no comparable produces (contract of eq: requires singular); iterator chain over Vec<Pointer>",
-         ensures=[]),
+    # not reachable from a well-formed query (`eq` requires singular operands); proved all the same, so that no caller has to trust it
+    Unit(name="eq_arrays", file=F, fn="eq_arrays", order=39, serves=["C04", "C08"], calls=["eq_json"],
+         ensures=[("def", "r == (lhs@.len() == rhs@.len() && forall|i: int| 0 <= i < lhs@.len() ==> json_eq(#[trigger] lhs@[i], *rhs@[i]))")],
+         shapes=[("Rzi", 1, "{ let __z = vf_zip_all($X, $Y, $P); proof { if $X@.len() == $Y@.len() { "
+                            "assert(__z == (forall|i: int| 0 <= i < $X@.len() ==> json_eq(#[trigger] $X@[i], *$Y@[i]))); } } __z }")],
+         closures={1: Cl(expect="eq_json(a, *b)", types=["(&T, &&T)"], ret="(e: bool)",
+                         ensures=[("elem", "e == json_eq(*__c1_0.0, **__c1_0.1)")])}),
+    Unit(name="eq_ref_to_array", file=F, fn="eq_ref_to_array", order=40, serves=["C04", "C08"], ret_name="res", calls=["eq_arrays"],
+         ensures=[("def", "res == match r.inner.as_array_spec() { Some(a) => a@.len() == rhs@.len() && forall|i: int| 0 <= i < a@.len() ==> json_eq(#[trigger] a@[i], *rhs@[i].inner), None => false }")],
+         shapes=[("R2i", 1, "vf_iter_map_collect($X, $F)")],
+         closures={1: Cl(expect="eq_arrays(array", types=["&Vec<T>"], ret="(e: bool)",
+                         ensures=[("arr", "e == (array@.len() == rhs@.len() && forall|i: int| 0 <= i < array@.len() ==> json_eq(#[trigger] array@[i], *rhs@[i].inner))")]),
+                   2: Cl(expect="p.inner", types=["&Pointer<T>"], ret="(o: &T)",
+                         ensures=[("inner", "o == p.inner")])}),
     Unit(name="eq", file=F, fn="eq", order=40, serves=["C04", "C15"],
          requires=[("singular", "!(lhs_state.data is Refs) && !(rhs_state.data is Refs)")],
          ensures=[("def", "r == val_eq(denote(lhs_state.data), denote(rhs_state.data))")],
